@@ -8,7 +8,8 @@
 (* the verdicts COMPUTED HERE (class, ok / reject / budget, shape, peak    *)
 (* nesting); harness/src/bin/drive_kip.rs renders tokens to text and       *)
 (* compares the real parsers against them.                                 *)
-(* Part 1 of the module: atoms and pattern families.                       *)
+(* Parts: 1 patterns, 2 literals / filters / tails / values, 3 META,       *)
+(* 4 KML, 5 towers, 6 length / wide / whole input, then the enumeration.   *)
 (***************************************************************************)
 EXTENDS KipGrammar, TLC, Json
 
@@ -332,7 +333,7 @@ Stmts ==
      <<"ensure", "", Tuple(Par("a"), Var("pv"), Par("b")), <<>> >>,     \* ?variable predicates are read-pattern syntax
      <<"ensure", "", Tuple(Par("a"), PathAlt, Par("b")), <<>> >>,
      <<"ensure", "", Tuple(Str("plain"), Str("plain"), Par("b")), <<>> >>,
-     <<"ensure", "", Tuple(Par("a"), Str("plain"), AssertionOf(Tuple(Var("s"), PathHop, Var("o")))[4]), <<>> >>,
+     <<"ensure", "", Tuple(Par("a"), Str("plain"), OM(<< <<Id("proposition"), Tuple(Var("s"), PathHop, Var("o"))>> >>)), <<>> >>,   \* path nested in the object term
      <<"assert", "", PA, Members(<<>>), <<>> >>, <<"assert", "a", PA, Members(<<>>), <<>> >>,
      <<"assert", "", PA, Members(AllMembers), <<Par("old")>> >>, <<"assert", "a", PA, Members(AllMembers), <<Str("plain")>> >>,
      <<"assert", "", Tuple(Par("alice"), Str("trailbs"), Str("opens")), Members(<< <<Id("key"), Str("plain")>> >>), <<>> >>,
